@@ -79,6 +79,12 @@ class Closure:
     def fields(s): return s.upvars
 class Coroutine:
     def __init__(s, fname, upvars): s.fname = fname; s.fields = list(upvars); s.variant = 0; s.ty = 'coroutine'
+class RefCellM:
+    def __init__(s, inner, name): s.inner = Cell(inner, name); s.state = 0; s.name = name   # -1 mut, n shared
+class BorrowM:
+    def __init__(s, rc, mode): s.rc = rc; s.mode = mode; s.live = True
+class TlsKey:
+    def __init__(s, name, init): s.name = name; s.init = init; s.per_thread = {}
 class FnItem:
     def __init__(s, name): s.name = name
 class Instant:
@@ -345,6 +351,9 @@ class Interp:
         m = re.match(r'^b"(.*)"$', c)
         if m: return Opaque(('bytes', m.group(1)))
         if c.startswith('ZeroSized: {closure') or c.startswith('{closure'):
+            span = re.search(r'\{closure@([^}]*)\}', c).group(1)
+            cands = [n for n, g_ in s.p.fns.items() if '{closure#' in n and g_.args and ('closure@' + span + '}') in g_.locals[g_.args[0]].ty]
+            if len(cands) == 1: return Closure(cands[0], [])
             names = s.p.clo_on_line.get((f.tag, ln), [])
             if len(set(names)) >= 1: return Closure(names[0], [])
             raise Unsupported('anonymous closure const')
@@ -436,6 +445,11 @@ class Interp:
                 else: lk.state -= 1
                 lk.owners.remove(v.tid)
                 ctx.events.append(('unlock', v.tid, lk.name))
+        elif isinstance(v, BorrowM):
+            if v.live:
+                v.live = False
+                if v.mode == 'w': v.rc.state = 0
+                else: v.rc.state -= 1
         elif isinstance(v, Agg):
             for x in v.fields: s.drop_val(ctx, x)
         elif isinstance(v, Closure):
@@ -652,6 +666,11 @@ class Interp:
             o = A[0]; return some(deref(o.fields[0])) if o.variant == 1 else none()
         if g.endswith('Option::unwrap_or_default'):
             o = A[0]; return o.fields[0] if o.variant == 1 else MapM()
+        if g.endswith('Option::unwrap_or'):
+            return A[0].fields[0] if A[0].variant == 1 else A[1]
+        if g.endswith('MemoryEstimator>::estimate_memory'):
+            v = deref(A[0]); SZ = z3.Function('size', z3.BitVecSort(64), z3.BitVecSort(64)); r = SZ(v)
+            ctx.add(z3.ULT(r, z3.BitVecVal(2**40, 64))); return r
         if g.endswith('Option::map'):
             o = A[0]
             if o.variant == 0: return none()
@@ -661,6 +680,21 @@ class Interp:
         if g.endswith('box_assume_init_into_vec_unsafe'):
             mu = load(A[0].fields[0].fields[0]); arr = mu.fields[1].fields[0].fields[0]
             return SeqM(list(arr.fields))
+        # ---- thread locals / RefCell
+        if g.endswith('LocalKey::with'):
+            key = deref(A[0])
+            if ctx.tid not in key.per_thread:
+                v = key.init() if callable(key.init) else key.init
+                key.per_thread[ctx.tid] = Cell(v, key.name)
+            r = yield from s.call_callable(ctx, A[1], [Ref(key.per_thread[ctx.tid])]); return r
+        if g.endswith('RefCell::borrow') or g.endswith('RefCell::borrow_mut'):
+            rc = deref(A[0]); mode = 'w' if g.endswith('_mut') else 'r'
+            if (mode == 'w' and rc.state != 0) or (mode == 'r' and rc.state < 0):
+                raise Panic(f'RefCell already {"mutably " if rc.state < 0 else ""}borrowed: {"BorrowMutError" if mode == "w" else "BorrowError"} on {rc.name}')
+            rc.state = -1 if mode == 'w' else rc.state + 1
+            return BorrowM(rc, mode)
+        if tc and tc[0] in ('Ref', 'RefMut') and tc[2] in ('deref', 'deref_mut') and isinstance(deref(A[0]), BorrowM):
+            return Ref(deref(A[0]).rc.inner)
         # ---- futures
         if tc and tc[1] == 'IntoFuture' and tc[2] == 'into_future': return A[0]
         if g.endswith('Pin::new_unchecked'): return Agg('Pin', 0, [A[0]])
